@@ -100,7 +100,9 @@ def ops32 : Handler := fun st toks =>
     let wf := if bitmapWF sl.m then "" else " !WF"
     let els := Bitmap.elems sl.m
     let setPart := if els == sl.s then dumpSet els else specMark (dumpSet els) (dumpSet sl.s)
-    pure (st, setPart ++ " | " ++ dumpRepr sl.m ++ wf)
+    match dumpRepr sl.m st.dbg with
+    | some repr => pure (st, setPart ++ " | " ++ repr ++ wf)
+    | none => pure (st, "panic")     -- `serialize_into` of an empty container with overflow checks on
   | ["dumpset", d] => do
     let (_, sl) ← b? d
     let els := Bitmap.elems sl.m
